@@ -363,7 +363,7 @@ package collection
 //@     decreases n - index
 
 //@ func (*list_).AppendValues
-//@   props C01 C18 C19
+//@   props C01 C18 C19 C16
 //@   implements Expandable.AppendValues
 //@   let n := len(view(this))
 //@   let m := len(view(values))
